@@ -750,6 +750,10 @@ func (e *kvElection) StopWithContext(ctx context.Context, opts StopOptions) erro
 		}
 	}
 
+	// The time-out bounds the whole call: waiting for the background goroutines,
+	// deleting the key and waiting for the OnDemote callback share one deadline.
+	deadline := time.Now().Add(timeout)
+
 	done := make(chan struct{})
 	go func() {
 		e.wg.Wait()
@@ -789,7 +793,28 @@ func (e *kvElection) StopWithContext(ctx context.Context, opts StopOptions) erro
 	)
 
 	if opts.DeleteKey && wasLeader {
-		if err := e.kv.Delete(e.key); err != nil {
+		// The store call cannot be cancelled; do not let it hold up the caller
+		// beyond the deadline.
+		deleted := make(chan error, 1)
+		go func() {
+			deleted <- e.kv.Delete(e.key)
+		}()
+		var err error
+		select {
+		case err = <-deleted:
+		case <-time.After(time.Until(deadline)):
+			log := e.getLogger()
+			log.Warn("shutdown_timeout",
+				append(e.logWithContext(ctx),
+					zap.Duration("timeout", timeout),
+					zap.String("phase", "key_deletion"),
+				)...,
+			)
+			return fmt.Errorf("shutdown timeout exceeded: %v", timeout)
+		case <-ctx.Done():
+			return ctx.Err()
+		}
+		if err != nil {
 			log := e.getLogger()
 			log.Warn("key_deletion_failed",
 				append(e.logWithContext(ctx),
@@ -831,7 +856,7 @@ func (e *kvElection) StopWithContext(ctx context.Context, opts StopOptions) erro
 
 				select {
 				case <-done:
-				case <-time.After(timeout):
+				case <-time.After(time.Until(deadline)):
 					log.Warn("ondemote_callback_timeout",
 						append(e.logWithContext(ctx),
 							zap.Duration("timeout", timeout),
